@@ -59,15 +59,34 @@ def binder(root, vid):
     return None, None
 
 
-def sources(F, roots, e, limit=16):
-    """roots: bodies to search binders in (the function body and the bodies of its closures)"""
+def sources(F, roots, e, limit=16, follow_calls=False):
+    """roots: bodies to search binders in (the function body and the bodies of its closures).
+    follow_calls: a call of a small crate-local function contributes the function's result expressions (its tail and the
+    operands of its `return`s), whose variables are resolved in that function's own body."""
     if isinstance(roots, dict):
         roots = [roots]
+    roots = list(roots)
     out = [(e, "plain")]
     seen = set()
+    seen_fns = set()
     work = [e]
     while work and len(out) < limit:
         cur = work.pop()
+        if follow_calls:
+            for x in walk_with_closures(F, cur):
+                if x.get("k") == "Call":
+                    g = F.by_path.get(x.get("r") or "") or F.by_path.get(x.get("f") or "")
+                    if g is not None and g.get("dk") in ("Fn", "AssocFn") and g["path"] not in seen_fns and sum(1 for _ in T.walk(g["body"])) < 400:
+                        seen_fns.add(g["path"])
+                        roots.extend(bodies(F, g))
+                        res = [n["e"] for n in T.walk(g["body"]) if n.get("k") == "Return" and n.get("e") is not None]
+                        b = T.peel(g["body"])
+                        while b.get("k") == "Block" and b.get("e") is not None:
+                            b = T.peel(b["e"])
+                        res.append(b)
+                        for r in res:
+                            out.append((r, "call"))
+                            work.append(r)
         for x in walk_with_closures(F, cur):
             if x.get("k") in ("Var", "Upvar") and x["id"] not in seen:
                 seen.add(x["id"])
